@@ -36,7 +36,7 @@ PROPS["C03"] = dict(
 
 PROPS["C01"] = dict(
     snapshot_modules=["Rrtk.Thm.Lemmas.C01Snapshot"],
-    precompare=cases.precompare_conversions,
+    precompare=cases.precompare_conversions_C01,
     exhaustive_parts='49x49 ordered pairs of grid units x every operator/assign/compare form on Quantity and on bare Unit; all 49 named constants; all special-value pairs of the 14 listed f32 bit patterns',
     gen=cases.gen_C01,
     # "with dimension checking enabled": every way of enabling it — debug profile, release profile + dim_check_release, no_std
